@@ -39,7 +39,8 @@ NAN = 'fresh-nan'          # placeholder: a fresh float('nan') object per occurr
 SNAN = 'shared-nan'        # the one np.nan object
 INF = float('inf')
 KEYS = [None, 0, 1, 2, 3, 1.0, 2.0, 2.5, -0.25, 'a', 'b', '', D(2020, 1, 1), D(2020, 1, 2, 12), NAN, NAN, SNAN, INF, -INF,
-        2 ** 53, 2 ** 53 + 1, float(2 ** 53)]     # neighbouring ints beyond float precision are distinct keys
+        2 ** 53, 2 ** 53 + 1, float(2 ** 53),      # neighbouring ints beyond float precision are distinct keys
+        datetime.date(2020, 1, 1), datetime.date(2020, 1, 2)]   # a date is the datetime of its midnight (as_primitive); wire spelling DT:
 VALS = [None, 1, 2, 'p', 'q', 0.5]
 
 
@@ -445,7 +446,12 @@ def shrink(case, still_fails):
 # ------------------------------------------------------------------ laws: the statement, checked on the implementation alone
 
 def keq(a, b):
-    """key equality of the property statement"""
+    """key equality of the property statement (a datetime.date is the datetime of its midnight: the library normalises
+    keys with as_primitive before comparing, C07)"""
+    if isinstance(a, datetime.date) and not isinstance(a, datetime.datetime):
+        a = datetime.datetime(a.year, a.month, a.day)
+    if isinstance(b, datetime.date) and not isinstance(b, datetime.datetime):
+        b = datetime.datetime(b.year, b.month, b.day)
     fa = isinstance(a, (int, float, np.integer, np.floating)) and not isinstance(a, (bool, np.bool_))
     fb = isinstance(b, (int, float, np.integer, np.floating)) and not isinstance(b, (bool, np.bool_))
     if fa and fb:
